@@ -79,6 +79,13 @@ type MapEntry struct {
 type MapC struct {
 	Entries []MapEntry
 	KT, VT  types.Type
+	// array-backed representation for small-integer keys and scalar values
+	Arr   bool
+	Pres  *smt.Term // Array idx -> Bool
+	Val   *smt.Term // Array idx -> value (zero where absent)
+	Count *smt.Term // BV64 number of present keys
+	Cand  []*smt.Term // every key ever inserted (for range)
+	Sure  map[uint64]bool // concrete keys that are certainly present (whatever symbolic stores happened)
 }
 type ChanEntry struct {
 	G *smt.Term
@@ -102,6 +109,9 @@ type IterC struct {
 	Str     *StrV
 	Pos     int
 	IsStr   bool
+	Start    int  // entries before Start are known to be done
+	Distinct bool // all candidate keys are pairwise distinct constants
+	Invalid bool // merged from diverged iterators (only legal if never used again)
 }
 
 func bv64(v int64) *smt.Term { return smt.ConstI(64, v) }
